@@ -94,6 +94,7 @@ def run(run, ix, tier):
     from .kernel_rules import check_amplified_error
     run.rule('B-R10', floor=6, desc='amplified intermediates carry multiplier-dependent guard bits')
     check_amplified_error(run, ix, 'B-R10')
+    check_pow_int_exact(run, ix)
     # H-R15: a complex number is a pair of raw mpf; mpc_* kernels take pairs, mpf_* kernels raw mpf
     from ..shape import check_shapes
     run.rule('H-R15', floor=700, desc='kernel arguments have the shape (raw mpf / complex pair) the kernel takes')
@@ -165,3 +166,118 @@ def check_mpc_eq_operand(run, ix, rule):
             run.fail(Finding(rule, CTXPY, '_mpc.mpc_convert_lhs', norm(r),
                              'operands of complex comparisons are not converted with the lossless '
                              'context.convert (got `%s`)' % txt, line=r.lineno))
+
+
+# --------------------------------------------------------------------------- P-R1
+LIBMPC = 'mpmath/libmp/libmpc.py'
+EXACT_BITS = 10000          # "z**n (n >= 0, exact result of at most about 10^4 bits) is correctly rounded"
+
+
+def _gate(test, var_pred):
+    """(bound, strict) of a test `<expr> < N` / `<= N` whose left side satisfies var_pred, among the conjuncts"""
+    conj = test.values if isinstance(test, ast.BoolOp) and isinstance(test.op, ast.And) else [test]
+    for c in conj:
+        if isinstance(c, ast.Compare) and len(c.ops) == 1 and isinstance(c.ops[0], (ast.Lt, ast.LtE)) \
+                and isinstance(c.comparators[0], ast.Constant) and isinstance(c.comparators[0].value, int) \
+                and var_pred(c.left):
+            return c.comparators[0].value, isinstance(c.ops[0], ast.Lt), c
+    return None
+
+
+def _single_rounding(call, f):
+    """from_man_exp(<exact integer>, <exponent>, prec, rnd) with the function's own prec and a mode that is the
+    caller's (or its negative_rnd image)"""
+    return isinstance(call, ast.Call) and norm(call.func) == 'from_man_exp' and len(call.args) == 4 \
+        and norm(call.args[2]) == 'prec' and norm(call.args[3]) in ('rnd', 'negative_rnd[rnd]')
+
+
+def check_pow_int_exact(run, ix):
+    """P-R1.  z**n for n >= 0 is correctly rounded per component when the exact power has at most about
+    10^4 bits.  In mpc_pow_int this needs (a) the general exact-integer path to be taken for every such
+    power: its gate compares a size ESTIMATE that is up to twice the true size (|re| = |im|), so the bound
+    must exceed 2*10^4; inside the gate each component is one from_man_exp(<integer>, <exponent>, prec, rnd);
+    (b) the axis cases (a zero component) not to fall back to mpf_pow_int, which rounds intermediate
+    products beyond 1000 bits, unless a gate `bc*n < M`, M >= 10^4, with an exact from_man_exp(man**n, ...)
+    exit comes first; (c) a power that is negated after rounding (i^n = -1, -i) to be rounded with
+    negative_rnd[rnd]."""
+    run.rule('P-R1', floor=7, desc='z**n: exact integer path for every power of up to 10^4 bits, on and off the axes')
+    f = ix.func(LIBMPC, 'mpc_pow_int')
+    # (a) general gate
+    gates = [x for x in _walk_own(f.node) if isinstance(x, ast.If)
+             and any(isinstance(c, ast.Call) and norm(c.func) == 'complex_int_pow' for c in ast.walk(x))]
+    if len(gates) != 1:
+        raise AnalysisError('mpc_pow_int: exact complex integer path not found')
+    g = _gate(gates[0].test, lambda e: isinstance(e, ast.Name))
+    if g is None:
+        raise AnalysisError('mpc_pow_int: the exact path is not gated by a size bound')
+    bound, strict, cmpnode = g
+    reach = bound - 1 if strict else bound
+    if reach >= 2 * EXACT_BITS + 1:
+        run.ok('P-R1', 'mpc_pow_int: exact path for size estimates up to %d (true size up to %d bits)' % (reach, reach // 2))
+    else:
+        run.fail(Finding('P-R1', LIBMPC, 'mpc_pow_int', norm(cmpnode), 'the size estimate is up to twice the true size '
+                         '(exactly twice for |re| = |im|), so this gate sends powers of %d bits and more to '
+                         'exp(n log z), which cannot return exact zeros or exact powers of two: '
+                         'mpc(1, 1)**%d has a spurious component' % (reach // 2 + 1, reach + 1), line=cmpnode.lineno))
+    rets = [x for x in ast.walk(gates[0]) if isinstance(x, ast.Return)]
+    comps = [a for x in _walk_own(f.node) if isinstance(x, ast.Assign) and x in list(ast.walk(gates[0]))
+             and isinstance(x.value, ast.Call) and norm(x.value.func) == 'from_man_exp' for a in [x]]
+    for a in comps:
+        if _single_rounding(a.value, f):
+            run.ok('P-R1', 'mpc_pow_int: %s is a single rounding of the exact integer power' % norm(a, 70))
+        else:
+            run.fail(Finding('P-R1', LIBMPC, 'mpc_pow_int', norm(a), 'a component of the exact power is not rounded '
+                             'once with the caller\'s precision and mode', line=a.lineno))
+    if len(comps) < 2 or not rets:
+        run.fail(Finding('P-R1', LIBMPC, 'mpc_pow_int', norm(gates[0].test), 'the exact path does not return two '
+                         'from_man_exp components', line=gates[0].lineno))
+    # (b) axis cases
+    first_gate_line = gates[0].lineno
+    for c in _walk_own(f.node):
+        if not (isinstance(c, ast.Call) and isinstance(c.func, ast.Name) and c.lineno < first_gate_line):
+            continue
+        if c.func.id == f.name:
+            continue                    # negative exponent: reciprocal of the positive power
+        if c.func.id == 'mpf_pow_int':
+            run.fail(Finding('P-R1', LIBMPC, 'mpc_pow_int', norm(c), 'a power of a number on the real or imaginary axis is '
+                             'handed to mpf_pow_int, which rounds intermediate products once the power has more than '
+                             '1000 bits: mpc(x, 0)**22 is not correctly rounded although mpc(x, 1e-300)**22 is',
+                             line=c.lineno))
+            continue
+        h = ix.find_func(LIBMPC, c.func.id) or ix.find_func('mpmath/libmp/libmpf.py', c.func.id)
+        if h is None or not any(isinstance(y, ast.Call) and norm(y.func) == 'mpf_pow_int' for y in ast.walk(h.node)):
+            continue
+        # helper with a fallback to mpf_pow_int: needs the exact gate first
+        ok = False
+        for st in h.node.body:
+            if isinstance(st, ast.If):
+                gg = _gate(st.test, lambda e: isinstance(e, ast.BinOp) and isinstance(e.op, ast.Mult)
+                           and {norm(e.left), norm(e.right)} == {'bc', 'n'})
+                exact = [r for r in ast.walk(st) if isinstance(r, ast.Return) and _single_rounding(r.value, h)
+                         and 'man ** n' in norm(r.value.args[0])]
+                if gg and exact and (gg[0] - 1 if gg[1] else gg[0]) >= EXACT_BITS:
+                    ok = True
+            if any(isinstance(y, ast.Call) and norm(y.func) == 'mpf_pow_int' for y in ast.walk(st)):
+                break
+        if ok:
+            run.ok('P-R1', 'mpc_pow_int: %s takes the exact integer power before falling back to mpf_pow_int' % norm(c, 60))
+        else:
+            run.fail(Finding('P-R1', LIBMPC, h.name, 'def %s' % h.name, 'the axis helper reaches mpf_pow_int without an '
+                             'exact path `bc*n < M` (M >= 10^4) returning from_man_exp(man**n, ..., prec, rnd) first',
+                             line=h.lineno))
+    # (c) negation after a directed rounding
+    for c in _walk_own(f.node):
+        if isinstance(c, ast.Call) and norm(c.func) == 'mpf_neg' and c.args:
+            inner = c.args[0]
+            if isinstance(inner, ast.Name):
+                defs = [a.value for a in _walk_own(f.node) if isinstance(a, ast.Assign) and len(a.targets) == 1
+                        and norm(a.targets[0]) == inner.id and a.lineno < c.lineno]
+                inner = defs[-1] if defs else inner
+            if isinstance(inner, ast.Call) and len(inner.args) >= 4:
+                mode = norm(inner.args[3])
+                if mode == 'negative_rnd[rnd]':
+                    run.ok('P-R1', 'mpc_pow_int: %s rounds in the opposite direction before the negation' % norm(c, 70))
+                else:
+                    run.fail(Finding('P-R1', LIBMPC, 'mpc_pow_int', norm(c), 'the power is rounded with `%s` and then '
+                                     'negated: floor and ceiling are exchanged (mpc_pow_int(3i, 6, 5, \'f\') is -704 '
+                                     'instead of -736)' % mode, line=c.lineno))
